@@ -663,9 +663,11 @@ async def replay_d36():
         out["prefix_outcome_next"] = kind(job)
         # the outcome of the repository's executor
         state_name, deferred = _validate_unchanged_outcome()
-        out["repo_outcome"] = [state_name, deferred]
         async with db:
+            if deferred == "unusable_dynamic_input":      # the repaired shape: computed in the outcome transaction
+                deferred = bool(S.has_unusable_dynamic_input())
             S.set_state(StepState[state_name], deferred)
+        out["repo_outcome"] = [state_name, deferred]
         job = await sched.pop_next_job()
         out["repo_outcome_next"] = kind(job)
         out["after"] = await _snap(w)
